@@ -132,6 +132,37 @@ def run_tensor(ns, mon, case):
                 viol.append(V(f"{sig}:grad-property", ".grad property returns a tensor of another dtype/shape than the buffer"))
         if dt == np.float32:
             grads32 = [None if t._grad is None else np.asarray(t._grad, dtype=np.float64).copy() for t in ts]
+    if len(xs64) >= 2 and not a.get("alias"):
+        # operands of different floating dtypes in one op (a float32 parameter meeting float64 data): whatever dtype the result takes, every
+        # operand's .grad has that operand's own dtype and shape (fresh leaves: no gradient buffer exists before this backward)
+        for pat in (0, 1):
+            dts_ = [np.float32 if (i_ % 2) == pat else np.float64 for i_ in range(len(xs64))]
+            T = ns.Tensor
+            ts = [T(x.astype(d_).copy(), requires_grad=True) for x, d_ in zip(xs64, dts_)]
+            try:
+                with np.errstate(all="ignore"):
+                    out = op.forms[case["form"]](ns, ts, a)
+                outs = list(out) if isinstance(out, (tuple, list)) else [out]
+                if not outs or not all(o.requires_grad for o in outs):
+                    continue
+                grng = gen.rng_for(case["seed"], "g-mixed")
+                for o in outs:
+                    o.backward(T(gen.upstream(grng, o.shape, "normal").astype(o.dtype)))
+            except Exception:
+                counters["mixed_operand_dtypes_rejected"] = counters.get("mixed_operand_dtypes_rejected", 0) + 1
+                mon.drain()
+                continue
+            counters["mixed_operand_dtype_checks"] = counters.get("mixed_operand_dtype_checks", 0) + 1
+            for i, t in enumerate(ts):
+                g = t._grad
+                if g is None:
+                    continue
+                if tuple(g.shape) != tuple(t.data.shape):
+                    viol.append(V(f"{sig}:operand-grad-shape:mixed-operand-dtypes", f"operand {i} grad shape {list(g.shape)} != {list(t.data.shape)}", args=a, shapes=case["shapes"]))
+                elif g.dtype != t.data.dtype:
+                    viol.append(V(f"{sig}:operand-grad-dtype:mixed-operand-dtypes", f"operand {i} ({t.data.dtype}) met operands of another floating dtype and got a {g.dtype} gradient",
+                                  args=a, dtypes=[np.dtype(d_).name for d_ in dts_]))
+            mon.drain()      # (graph-wide monitor findings for the mixed pass are covered by the two checks above)
     if "float32" in outs_by_dt and "float64" in outs_by_dt:
         try:
             yabs = op.ref([np.abs(x.astype(np.float32).astype(np.float64)) for x in xs64], a)
